@@ -69,12 +69,13 @@ type symPath struct {
 }
 
 type maskInterp struct {
-	c      *maskCtx
-	fn     *ssa.Function
-	who    map[*ssa.Parameter]string
-	paths  []symPath
-	steps  int
-	failed error
+	wroteParam map[string]bool
+	c          *maskCtx
+	fn         *ssa.Function
+	who        map[*ssa.Parameter]string
+	paths      []symPath
+	steps      int
+	failed     error
 }
 
 func cellKey(root interface{}, k int) string {
@@ -200,6 +201,9 @@ func (m *maskInterp) store(st *interpState, a, v *symVal) {
 	if a.kind != skAddr {
 		m.fail("store through a non-address")
 		return
+	}
+	if who, ok := a.root.(string); ok {
+		m.wroteParam[who] = true
 	}
 	if a.idx >= 0 {
 		if v.kind != skWord {
@@ -470,7 +474,7 @@ func (p *symPred) toWpred() *wpred {
 
 // analyseSSA recovers the maskMethod structure of a Mask method from its SSA form.
 func (c *maskCtx) analyseSSA(fn *ssa.Function) (*maskMethod, error) {
-	m := &maskInterp{c: c, fn: fn, who: map[*ssa.Parameter]string{}}
+	m := &maskInterp{c: c, fn: fn, who: map[*ssa.Parameter]string{}, wroteParam: map[string]bool{}}
 	for i, pr := range fn.Params {
 		if i == 0 {
 			m.who[pr] = "b"
@@ -487,6 +491,10 @@ func (c *maskCtx) analyseSSA(fn *ssa.Function) (*maskMethod, error) {
 		return nil, fmt.Errorf("no returning path")
 	}
 	mm := &maskMethod{pos: fn.Pos()}
+	for who := range m.wroteParam {
+		mm.writes = append(mm.writes, who)
+	}
+	sort.Strings(mm.writes)
 	if len(m.paths) == 1 {
 		p := m.paths[0]
 		switch {
